@@ -430,7 +430,7 @@ class Scanner:
                     elif isinstance(t, ast.Attribute):
                         m = model_of(t.value)
                         if m and m not in BOOKKEEPING_MODELS and t.attr not in BOOKKEEPING_ATTRS:
-                            ev.append(("mut", f"{ast.unparse(t)} = … @{defining[0]}.py:{node.lineno}"))
+                            ev.append(("mut", f"{ast.unparse(t)} = … @{defining[0]}.py"))
                         visit(t.value)
                     elif isinstance(t, ast.Tuple):
                         for x in t.elts:
@@ -495,7 +495,7 @@ class Scanner:
 
         def call(node: ast.Call):
             f = node.func
-            where = f"@{defining[0]}.py:{node.lineno}"
+            where = f"@{defining[0]}.py"
             # CSRF checks
             if isinstance(f, ast.Attribute) and f.attr == "check_csrf" and node.args:
                 ev.append(("csrf", self.service(node.args[0], key)))
